@@ -373,12 +373,12 @@ class FmtStr:
         for bfs, bfs_start, bfs_end in zip(
             self.chunks, self.divides[:-1], self.divides[1:]
         ):
-            if end == bfs_start == 0:
+            if end == bfs_start == 0 and not inserted:
                 new_components.extend(new_fs.chunks)
                 new_components.append(bfs)
                 inserted = True
 
-            elif bfs_start <= start < bfs_end:
+            elif bfs_start <= start < bfs_end and not inserted:
                 divide = start - bfs_start
                 head = Chunk(bfs.s[:divide], atts=bfs.atts)
                 tail = Chunk(bfs.s[end - bfs_start :], atts=bfs.atts)
